@@ -364,6 +364,7 @@ package diam
 //@   ensures [C05] within_stream: single(r) ==> (pos(r) <= len(stream(r)))
 //@   ensures [C05] header_needs_20: single(r) ==> (err == nil ==> old(pos(r)) + 20 <= len(stream(r)))
 //@   ensures [C05] whole_header_taken: single(r) ==> (old(pos(r)) + 20 <= len(stream(r)) ==> pos(r) == old(pos(r)) + 20)
+//@   ensures [C05] end_of_file_only_at_the_end: single(r) ==> (old(pos(r)) < len(stream(r)) ==> err != io.EOF)
 //@ end
 //@
 //@ func (*Message).readBody(m, r, buf, cmd, stream) (err)
@@ -383,7 +384,7 @@ package diam
 //@   ensures [C19] body_from_the_header_stream: !single(r) && err == nil ==> pos(substream(r, stream)) == old(pos(substream(r, stream))) + int(m.Header.MessageLength) - 20
 //@   ensures [C03 C05] reject_short_length: single(r) ==> (m.Header.MessageLength < 20 ==> err != nil && pos(r) == old(pos(r)))
 //@   ensures [C05] consumed: single(r) ==> (err == nil ==> pos(r) == old(pos(r)) + int(m.Header.MessageLength) - 20)
-//@   ensures [C05] truncated: single(r) ==> (m.Header.MessageLength >= 20 && old(pos(r)) + int(m.Header.MessageLength) - 20 > len(stream(r)) ==> err != nil)
+//@   ensures [C05] truncated: single(r) ==> (m.Header.MessageLength >= 20 && old(pos(r)) + int(m.Header.MessageLength) - 20 > len(stream(r)) ==> err != nil && err != io.EOF)
 //@   ensures [C05] never_beyond: single(r) ==> (m.Header.MessageLength >= 20 ==> pos(r) <= old(pos(r)) + int(m.Header.MessageLength) - 20)
 //@   ensures [C05] monotone: single(r) ==> (old(pos(r)) <= pos(r) && pos(r) <= len(stream(r)))
 //@   ensures [C05] header_kept: m.Header == old(m.Header) && m.Header.MessageLength == old(m.Header.MessageLength)
@@ -406,7 +407,7 @@ package diam
 //@   ensures [C05] eof_between_messages: single(reader) ==> (old(pos(reader)) == len(stream(reader)) ==> err == io.EOF)
 //@   ensures [C05] eof_inside_header: single(reader) ==> (old(pos(reader)) < len(stream(reader)) && old(pos(reader)) + 20 > len(stream(reader)) ==> err != nil && err != io.EOF)
 //@   ensures [C05] short_length_rejected: single(reader) ==> (old(pos(reader)) + 20 <= len(stream(reader)) && be24(stream(reader), old(pos(reader)) + 1) < 20 ==> err != nil && pos(reader) == old(pos(reader)) + 20)
-//@   ensures [C05] eof_inside_body: single(reader) ==> (old(pos(reader)) + 20 <= len(stream(reader)) && be24(stream(reader), old(pos(reader)) + 1) >= 20 && old(pos(reader)) + int(be24(stream(reader), old(pos(reader)) + 1)) > len(stream(reader)) ==> err != nil)
+//@   ensures [C05] eof_inside_body: single(reader) ==> (old(pos(reader)) + 20 <= len(stream(reader)) && be24(stream(reader), old(pos(reader)) + 1) >= 20 && old(pos(reader)) + int(be24(stream(reader), old(pos(reader)) + 1)) > len(stream(reader)) ==> err != nil && err != io.EOF)
 //@   ensures [C05] never_beyond: single(reader) ==> (old(pos(reader)) + 20 <= len(stream(reader)) && be24(stream(reader), old(pos(reader)) + 1) >= 20 ==> pos(reader) <= old(pos(reader)) + int(be24(stream(reader), old(pos(reader)) + 1)))
 //@   # C03: what the reader returns satisfies the precondition of every inspection function (String, PrettyDump, search)
 //@   ensures [C03] inspectable: err == nil ==> m != nil && m.Header != nil && (m.dictionary != nil ==> pwf(m.dictionary)) && dtree(m.AVP)
